@@ -73,7 +73,7 @@ def from_integer(suffix, ctype, contract):
 
 SINKS = '((const char*)vx_sink)'
 RES = '__CPROVER_return_value'
-GA = 'vx_sink_n, __CPROVER_object_whole(vx_sink), __CPROVER_object_whole(vx_gv), vx_g_i, vx_g_n'
+GA = 'vx_sink_n, __CPROVER_object_whole(vx_sink), __CPROVER_object_whole(vx_gv), __CPROVER_object_whole(vx_gd), vx_g_i, vx_g_n'
 ITOA_I64 = [
     ('requires', 'vx_sink_n == 0'),
     ('assigns', GA),
